@@ -7,31 +7,33 @@ impl VMLocalPinningBitSpec {
     /// Pin an object by setting the pinning bit to 1.
     /// Return true if the object is pinned in this operation.
     pub fn pin_object<VM: VMBinding>(&self, object: ObjectReference) -> bool {
-        let res = self.compare_exchange_metadata::<VM, u8>(
-            object,
-            0,
-            1,
-            None,
-            Ordering::SeqCst,
-            Ordering::SeqCst,
-        );
-
-        res.is_ok()
+        self.update_pin_bit::<VM>(object, 0, 1)
     }
 
     /// Unpin an object by clearing the pinning bit to 0.
     /// Return true if the object is unpinned in this operation.
     pub fn unpin_object<VM: VMBinding>(&self, object: ObjectReference) -> bool {
-        let res = self.compare_exchange_metadata::<VM, u8>(
-            object,
-            1,
-            0,
-            None,
-            Ordering::SeqCst,
-            Ordering::SeqCst,
-        );
+        self.update_pin_bit::<VM>(object, 1, 0)
+    }
 
-        res.is_ok()
+    /// Change the pinning bit from `old` to `new`.  Return true if this operation changed it.
+    fn update_pin_bit<VM: VMBinding>(&self, object: ObjectReference, old: u8, new: u8) -> bool {
+        loop {
+            match self.compare_exchange_metadata::<VM, u8>(
+                object,
+                old,
+                new,
+                None,
+                Ordering::SeqCst,
+                Ordering::SeqCst,
+            ) {
+                Ok(_) => return true,
+                // The pinning bit shares its byte with other metadata and the compare-exchange
+                // is byte-wide: it also fails when only a neighbouring bit changed.  Try again.
+                Err(actual) if actual == old => continue,
+                Err(_) => return false,
+            }
+        }
     }
 
     /// Check if an object is pinned.
